@@ -549,6 +549,14 @@ func (w *Walker) evalBool(v ssa.Value, ps *pstate) Tri {
 		if r := w.evalCall(x, ps); r != U {
 			return r
 		}
+	case *ssa.Extract:
+		// one boolean result of a same-module helper returning a tuple ((batch, fired), (row, matched)):
+		// the helper is walked under the same ordering with its parameters bound to the arguments
+		if c, ok := x.Tuple.(*ssa.Call); ok {
+			if r := w.evalCallResult(c, x.Index, ps); r != U {
+				return r
+			}
+		}
 	case *ssa.Phi:
 		// phi not evaluated on entry (reached without pred info)
 		return U
@@ -568,6 +576,43 @@ func timeMethod(c *ssa.CallCommon) string {
 		return ""
 	}
 	return callee.Name()
+}
+
+// evalCallResult: boolean result #idx of a call to a same-module helper, when every path of the helper
+// feasible under the current ordering returns the same value for it.
+func (w *Walker) evalCallResult(c *ssa.Call, idx int, ps *pstate) Tri {
+	callee := c.Call.StaticCallee()
+	if callee == nil || callee.Blocks == nil || !w.env.a.fnInModule(callee) || w.env.depth >= 3 {
+		return U
+	}
+	res := callee.Signature.Results()
+	if idx >= res.Len() || !isBool(res.At(idx).Type()) {
+		return U
+	}
+	fr := &frame{fn: callee}
+	for _, arg := range c.Call.Args {
+		fr.args = append(fr.args, w.cur.tm.of(arg))
+	}
+	sub := NewWalker(w.env, fr)
+	sub.RetIdx = idx
+	sub.parent, sub.parentPs, sub.argVals = w, ps, c.Call.Args
+	w.env.depth++
+	outs := sub.Run(callee.Blocks[0], nil)
+	w.env.depth--
+	w.env.CurW = w
+	w.cur = ps
+	r := U
+	for _, o := range outs {
+		if o.Ended != "return" || o.Ret == U {
+			return U
+		}
+		if r == U {
+			r = o.Ret
+		} else if r != o.Ret {
+			return U
+		}
+	}
+	return r
 }
 
 func (w *Walker) evalCall(c *ssa.Call, ps *pstate) Tri {
